@@ -5,7 +5,9 @@
 prop=$1; out=$2; wt=${3:-/tmp/seed/wt-$prop}
 [ -d $wt ] || git -C /repo worktree add -q --detach $wt HEAD || exit 2
 git -C $wt checkout -q -- . ; git -C $wt clean -qfdx
-res=$out/confirm.txt; : > $res
+res=$out/confirm.txt
+if [ -z "$CHECKONLY" ]; then
+: > $res
 export QHTTPENGINE_SRC=$wt QHTTPENGINE_SOURCE_DIR=$wt
 # the demo scripts default to the worktree they were written for; no positional arguments (their meaning differs between scripts)
 rundemo() { ( cd $out && sh ./build.sh >/dev/null 2>&1 ); echo $?; }
@@ -15,7 +17,9 @@ git -C $wt apply $out/patch.diff && echo "patch_applies=yes" | tee -a $res || { 
 ctest --test-dir $wt/_b -j8 --timeout 300 2>&1 | grep -E "tests passed|tests failed" | tee -a $res
 echo "demo_patched_exit=$(rundemo 1)" | tee -a $res
 git -C $wt checkout -q -- . ; git -C $wt clean -qfdx
-# our check
+fi
+# our check (NOCHECK=1: scratch part only; CHECKONLY=1 skips the scratch part)
+[ -n "$NOCHECK" ] && exit 0
 git -C /repo apply $out/patch.diff
-( cd /verif && ./check.sh $prop quick 2>&1 | grep -E "VIOLATION|done in|ERROR" | head -4 ) | tee -a $res
+( cd /verif && timeout 1500 ./check.sh $prop quick 2>&1 | grep -E "VIOLATION|done in|ERROR" | head -4 ) | tee -a $res
 git -C /repo checkout -- .
